@@ -184,4 +184,18 @@ def baseSeparator : Int := 44
 def huiSmall : Nat := 100
 def huiGroup : Nat := 3
 
+/-! round 4b: the exit code and the read path (Model/C01Chunk.lean) -/
+
+/-- statements of `DetermineErrorState` (cmd/helpers/exitCodes.go), source order -/
+def stmts_determineErrorState : List String := ["if:b.ReadErrors()>0{", "return:cli.Exit(\"Readerrors\",ExitCodeInvalidUsage)", "}", "if:agg!=nil&&agg.ParseErrors()>0{", "return:cli.Exit(\"Parseerrors\",ExitCodeInvalidUsage)", "}", "if:e.MatchedLines()==0{", "return:cli.Exit(\"\",ExitCodeNoData)", "}", "return:nil"]
+
+/-- how `Batcher.syncReaderToBatcher` reads its source: reader wrapper, scanner constructor, error callback, scan calls (source order) -/
+def scanner_syncReaderToBatcher : List String := ["newReaderMetrics(reader)", "readahead.NewImmediate(readerMetrics,ReadAheadBufferSize)", "OnError{", "do:s.incErrors()", "do:logger.Printf(\"Errorreading%s:%v\",sourceName,e)", "}", "readahead.Scan()", "readahead.Bytes()"]
+
+/-- how `Batcher.syncReaderToBatcherWithTimeFlush` reads its source: reader wrapper, scanner constructor, error callback, scan calls (source order) -/
+def scanner_syncReaderToBatcherWithTimeFlush : List String := ["newReaderMetrics(reader)", "readahead.NewImmediate(readerMetrics,ReadAheadBufferSize)", "OnError{", "do:s.incErrors()", "do:logger.Printf(\"Errorreading%s:%v\",sourceName,e)", "}", "readahead.Scan()", "readahead.Bytes()"]
+
+/-- `OpenFilesToChan`: opening a file and the branch taken when that fails -/
+def openError_openFilesToChan : List String := ["file,err:=openFileToReader(goFilename,gunzip)", "if err!=nil{", "do:logger.Printf(\"Erroropeningfile%s:%v\",goFilename,err)", "do:out.incErrors()", "return:", "}"]
+
 end Rare.C01.Source
